@@ -65,9 +65,10 @@ type Conn struct {
 }
 
 type half struct {
-	buf    []byte
-	fin    bool
-	nbytes int64 // bytes delivered so far in this direction
+	buf     []byte
+	fin     bool
+	nbytes  int64 // bytes delivered so far in this direction
+	stalled bool  // this direction stopped making progress (flow control blocked)
 }
 
 type Stream struct {
@@ -81,7 +82,6 @@ type Stream struct {
 	revealed *bool
 	closed   bool // local handle closed
 	rdl, wdl time.Time
-	stalled  *bool
 }
 
 func NewPair(opt Options) (*Conn, *Conn) {
@@ -121,9 +121,9 @@ func (c *Conn) OpenStream(ctx context.Context) (transfer.Stream, error) {
 	}
 	id := base + 4*uint64(len(c.opened))
 	ab, ba := &half{}, &half{}
-	rev, st := new(bool), new(bool)
-	local := &Stream{c: c, id: id, idx: len(c.opened), byA: c.isA, revealed: rev, stalled: st}
-	remote := &Stream{c: c.peer, id: id, idx: len(c.opened), byA: c.isA, revealed: rev, stalled: st}
+	rev := new(bool)
+	local := &Stream{c: c, id: id, idx: len(c.opened), byA: c.isA, revealed: rev}
+	remote := &Stream{c: c.peer, id: id, idx: len(c.opened), byA: c.isA, revealed: rev}
 	local.twin, remote.twin = remote, local
 	local.out, remote.in = ab, ab
 	local.in, remote.out = ba, ba
@@ -271,7 +271,7 @@ func (s *Stream) Write(b []byte) (int, error) {
 	}
 	written := 0
 	for written < len(b) {
-		for *s.stalled {
+		for s.out.stalled {
 			if s.c.err != nil {
 				return written, s.c.err
 			}
@@ -321,7 +321,7 @@ func (s *Stream) Write(b []byte) (int, error) {
 			p.cond.Broadcast()
 			return written, s.c.err
 		case "stall":
-			*s.stalled = true
+			s.out.stalled = true
 		}
 	}
 	p.cond.Broadcast()
